@@ -15,10 +15,10 @@ from harness.common import Check, chunks, pmap, tmap, NPROC
 # grammar -> (tree height, node bound, max trees, schema formulas)
 TIERS = {
     "quick": {"ASSGN2": (7, 30, 150, 50), "XMLISH": (6, 26, 120, 30), "NULLABLE": (6, 14, 60, 20), "NUM": (6, 16, 80, 20),
-              "AMBIG": (5, 12, 40, 8), "CSVISH": (7, 22, 80, 15), "QUOTED": (6, 16, 40, 6), "WIDE": (0, 0, 6, 0)},
+              "AMBIG": (5, 12, 40, 8), "CSVISH": (7, 22, 80, 15), "QUOTED": (6, 16, 40, 6), "UNI": (6, 14, 25, 3), "WIDE": (0, 0, 6, 0)},
     "thorough": {"ASSGN2": (8, 40, 250, 90), "ASSGN": (7, 30, 120, 40), "XMLISH": (7, 34, 180, 50), "NULLABLE": (8, 20, 120, 40),
                  "NUM": (7, 20, 150, 40), "AMBIG": (6, 16, 80, 15), "CSVISH": (8, 24, 150, 30), "LEFTREC": (7, 24, 100, 25),
-                 "QUOTED": (6, 16, 60, 10), "WIDE": (0, 0, 6, 0)},
+                 "QUOTED": (6, 16, 60, 10), "UNI": (7, 18, 100, 10), "WIDE": (0, 0, 6, 0)},
 }
 NUMERIC_NTS = {"NUM": ("<digits>", "<digit>"), "ASSGN": ("<digit>",), "ASSGN2": ("<digit>",)}
 PID = "C03"
@@ -157,7 +157,7 @@ def main(tier):
     chk = Check(PID, tier)
     chk.cov["rule"] = ("trees: all derivation trees of each catalogue grammar up to a height/node bound enumerated by TLC (sampled down to a cap "
                        "with VERIF_SEED), plus 6 trees with a 40-children node; formulas: hand-written catalogue (match expressions incl. optionals "
-                       "and ambiguity, numeric quantifiers, count, level/nth, vacuous bodies) + schema-generated (prefix shape x matrix shape x atom family); "
+                       "and ambiguity, numeric quantifiers, count, level/nth, vacuous bodies, literals and match expressions beyond Latin-1 on grammar UNI) + schema-generated (prefix shape x matrix shape x atom family); "
                        "one evaluation = (formula, tree) judged for evaluate() and ISLaSolver.check(); non-trivial = formula with both verdicts among its trees")
     chk.assumptions = ["numeric quantifiers range over 0..NumBound (exact for the generated atom family, DESIGN.md 6.1)",
                        "str.to.int is applied to unsigned numerals only", "match-expression parse depth bound 6"]
